@@ -38,12 +38,13 @@ MAX_EVENTS_PER_INSTANT = 3000
 MAX_VIOLATIONS = 40
 
 
-class Watchdog(Exception):
-    pass
+class Watchdog(BaseException):
+    """raised by the harness' logical watchdog; a BaseException so that no `except Exception` (the repository's or a
+    monitor's) can swallow it or mistake it for an exception of the code under observation"""
 
 
-class WallClock(Exception):
-    pass
+class WallClock(BaseException):
+    """raised by the wall-clock alarm (tooling-inconclusive, never a verdict); see Watchdog"""
 
 
 class Ctx:
@@ -521,6 +522,19 @@ def install():
         kids = gd["children"].get(r["name"], [])
         if gd["flags"][r["name"]]["conditional"]:
             ctx.count("conditional_completions")
+            # "cancelled up to but excluding the join": the resolution of this conditional must not cancel its own join
+            for blk in ctx.world["meta"]["blocks"].get(r["gbase"], []):
+                if blk["cond"] == r["name"] and any(br.get("empty") for br in blk["branches"]):
+                    ctx.count("empty_branch_completions")
+                    if released and released[0].name == blk["terminal"]:
+                        ctx.count("empty_branch_taken")
+                if blk["cond"] == r["name"] and blk["terminal"] in [t.name for t in cancelled]:
+                    empty = [br for br in blk["branches"] if br.get("empty")]
+                    taken_is_empty = bool(released) and released[0].name == blk["terminal"]
+                    ctx.violate("C07", "join_cancelled_by_branch_resolution",
+                                f"{r['uname']} completed, released {rel_names} and cancelled its own join {blk['terminal']} "
+                                f"(cancelled: {[t.name for t in cancelled]})",
+                                empty_branch_untaken=bool(empty) and not taken_is_empty)
             probs = ctx._probs
             if ctx.world["flags"].get("resolve_conditionals_at_submission"):
                 # a conditional that runs to completion lies on a taken path: at submission exactly one of its
@@ -1086,6 +1100,8 @@ def _frontier_probes(ctx, sim, sim_time):
     try:
         sim._workload.get_releasable_tasks()  # judged by the releasable hooks (read-only)
     except Exception as e:
+        if isinstance(e, (Watchdog, WallClock)):
+            raise
         ctx.violate("C18", f"releasable_raises:{type(e).__name__}", str(e)[:200])
     ctx.in_probe = True
     try:
@@ -1102,6 +1118,8 @@ def _frontier_probes(ctx, sim, sim_time):
                             res = wlobj.get_schedulable_tasks(sim_time, EventTime(la, EventTime.Unit.US), False, retract,
                                                                sim._worker_pools, pol, 0.5, rtg)
                         except Exception as e:
+                            if isinstance(e, (Watchdog, WallClock)):
+                                raise  # the harness' own alarms are not the frontier's exceptions
                             ctx.violate("C18", f"frontier_raises:{type(e).__name__}",
                                         f"get_schedulable_tasks(t={now}, lookahead={la}, retract={retract}, rtg={rtg}, {pol.name}): {e}")
                             continue
@@ -1189,9 +1207,22 @@ def _idle_capacity_check(ctx):
         return
     import workload as wl
     for sw in ctx.live.values():
+        # C01 / C04: every task a live worker lists as placed (and therefore steps) is one whose place_task() the harness saw
+        # return, i.e. one that holds resources there; every profile it lists likewise
+        w = sw["obj"]
+        ctx.count("worker_table_checks")
+        members = {tid for key, ent in sw["residents"].items() if ent["type"] != "profile" for tid in ent["members"]}
+        for t in w.get_placed_tasks():
+            if id(t) not in members:
+                ctx.violate("C01", "task_listed_without_allocation",
+                            f"{sw['name']} lists {t.unique_name} ({t.state.name}) as placed but no successful place_task() put it there")
+        known_profiles = {key[1] for key, ent in sw["residents"].items() if ent["type"] == "profile"}
+        for pr in list(w.get_available_profiles()) + list(w.get_pending_profiles()):
+            if id(pr) not in known_profiles:
+                ctx.violate("C01", "profile_resident_without_allocation",
+                            f"{sw['name']} lists profile {pr.name} as loading/loaded but no successful load_profile() reserved its resources")
         if sw["residents"]:
             continue
-        w = sw["obj"]
         ctx.count("idle_capacity_checks")
         for n, cap in sw["cap"].items():
             res = wl.Resource(name=n, _id="any")
